@@ -89,6 +89,10 @@ def run(tier, seed):
     reps += greps
     viol += gviol
     m = vc.merge_rsched(reps)
+    # (d) the half of the safety argument that lives in lp/process.c: every process_msg() call reports to the GVT module a timestamp <=
+    # everything it puts in flight (anti-message cascades included), for every delivery order
+    preps, pm, pviol = hc.proc_part(PID, d, tier, part="acct")
+    viol += pviol
     n = vc.triage(PID, viol)
     cov = hc.coverage_from(m, reps, "gvt_reports",
                            "as C01 but with every atomic operation of gvt/gvt.c, gvt/termination.c, parallel/parallel.c (and, per scenario, "
@@ -104,6 +108,12 @@ def run(tier, seed):
     cov["gvt_protocol_state_search"] = [{"id": r["id"], "states": r["distinct_states"], "transitions": r["distinct_transitions"],
                                          "closed": r["exhaustive"], "level_completed": r["level_completed"]} for r in greps]
     cov["states"] += sum(r["distinct_states"] for r in greps)
+    hc.add_proc(cov, pm, preps)
+    cov["rule"] += ("; for C04 the h_proc oracle that matters is the accounting contract: by the time a process_msg() call returns, the smallest "
+                    "timestamp it passed to gvt_on_msg_extraction() is <= the timestamp of every message it put in flight for another worker "
+                    "(the receiver may already have sampled its queue, so only the sender's accumulator can cover it) - checked on every call "
+                    "of every delivery order of models with cancellation cascades (an extracted anti-message whose rollback cancels a "
+                    "message a third LP has processed)")
     vc.write_evidence(PID, tier, "model_checking", cov,
                       ["sequentially consistent interleavings of the hooked atomics; the relaxed orderings in gvt.c are not modelled",
                        "<= 2 ranks for the coloured message counting",
@@ -118,4 +128,6 @@ def replay(path):
     name = os.path.basename(path)
     if name.startswith("gvt_state"):
         return vc.rsched_replay(build_hgvt(d), path)
+    if hc.is_proc_replay(path):
+        return vc.rsched_replay(hc.build_proc(d), path)
     return vc.rsched_replay(hc.build(d, ranks=2 if name.startswith("r2") else 1), path)
